@@ -243,6 +243,22 @@ def positions_attr(ctx, rule: str = "C08.formula") -> None:
     f = ctx.prog.require_func("Labware.__init__", rule)
     fv = ctx.fv(f)
     n = 0
+    direct = [x for x in fv.cfg.nodes if x.kind == "stmt" and isinstance(x.ast, ast.Assign) and isinstance(x.ast.targets[0], ast.Attribute) and x.ast.targets[0].attr == "_positions"]
+    if len(direct) < 2 or not all(isinstance(x.ast.value, ast.DictComp) for x in direct):
+        # not the two comprehensions (plate / trough): evaluate the constructor's tables for a table of geometries
+        from . import init_model
+
+        ctx.rep.touch(f)
+        for attr, what in (("_positions", "1 + c*rows + r (plates) / 1 + c*virtual_rows + r (troughs)"), ("_wells", "the ID grid, one row per (virtual) row letter")):
+            v, detail = init_model.verdict(ctx, attr)
+            c = f"{f.qualname}/{attr}[evaluated]"
+            if v == "holds":
+                ctx.rep.holds(rule, c, detail + ": " + what, where=f.where())
+            elif v == "refuted":
+                ctx.rep.refuted(rule, c, detail, where=f.where())
+            else:
+                ctx.rep.inconclusive(rule, c, detail, where=f.where())
+        return
     for node in fv.cfg.nodes:
         if node.kind != "stmt" or not isinstance(node.ast, ast.Assign):
             continue
